@@ -48,7 +48,7 @@ func runC04(c *engine.Ctx, tier string) {
 	base := "err(@CFG) == nil && err(@TGT) == nil && " + notPersistent + " && @CFG.Status.State == config/v2.ConfigurationStatus_SYNCHRONIZING && @CFG.Status.Mastership.Master != \"\""
 	c.Outcome(engine.Outcome{ID: "C04.8a", Pkg: pkgConfigCtl, Root: "Reconciler.Reconcile", Min: 1, Consistent: true,
 		When: base + " && @CFG.Status.Applied.Index == 0", Must: synced,
-		Why:  "a target to which nothing was ever applied is synchronized at once, in the new term"})
+		Why: "a target to which nothing was ever applied is synchronized at once, in the new term"})
 	c.Outcome(engine.Outcome{ID: "C04.8b", Pkg: pkgConfigCtl, Root: "Reconciler.Reconcile", Min: 1, Consistent: true,
 		When: base + " && @CFG.Status.Applied.Index != 0 && err(@REL) == nil && controller/utils.GetOnosConfigID() == {@REL}topo.Object.GetRelation().SrcEntityID && ok(@CONN) && !#failed(" + sbSet + ") && !#failed(utils/v2/values.PathValuesToGnmiChange)",
 		Must: synced,
@@ -98,6 +98,11 @@ func runC04(c *engine.Ctx, tier string) {
 	// (7) request construction
 	requestBuilder(c, "C04.7a", pkgValuesV2)
 	requestBuilder(c, "C04.7b", pkgValuesV3)
+	// (10) "after the controlling connection is replaced": a replaced connection must be a *new* connection
+	// (new id, new CONTROLS relation, new term) or nothing is pushed again
+	connLifecycle(c, "C04.10")
+	// (11) what the re-push sends is Applied.Values: they are stored before the applied cursor that claims them
+	storeWriteOrder(c, "", "C04.11")
 }
 
 // pushGate: every path that writes SYNCHRONIZED without Applied.Index == 0 has passed the push
